@@ -571,6 +571,23 @@ static string opRename(const vector<string>& a)
 		TA R = A.TranslateSymbols(g);
 		out += " sym=" + dumpTA(R);
 	}
+	{	// a functor that THROWS on one state (the model: a strict translator over the map without that key): does the call
+		// throw, and for which key?  The destination is not touched afterwards (its state after an exception is an
+		// observation of DESIGN.md §8, not part of the property)
+		struct ThrowReindex : public AbstractReindexF {
+			std::map<size_t, size_t> m; size_t miss;
+			StateType go(const StateType& s) const { if (s == miss) throw std::out_of_range(std::to_string(s)); auto it = m.find(s); return it == m.end() ? s : it->second; }
+			virtual StateType operator[](const StateType& s) override { return go(s); }
+			virtual StateType at(const StateType& s) const override { return go(s); }
+		};
+		if (a.size() > 4) {
+			ThrowReindex f; for (auto& p : sm) f.m[p.first] = p.second; f.miss = toN(a.at(4));
+			string thrown = "-";
+			try { TA R = A.ReindexStates(f); (void)R; }
+			catch (const std::out_of_range& e) { thrown = e.what(); }
+			out += " thrown=" + thrown;
+		}
+	}
 	return out + " A=" + dumpTA(A);
 }
 
